@@ -935,7 +935,7 @@ impl Prop for P {
          function with its interval evaluator on the box or its point evaluator at a point (JIT or interpreter), the \
          function is simplified with it (JIT->JIT, or interpreter budget N -> M over 9 (N, M) pairs incl. 255->3 and 3->12), \
          and the newest child is compared with the ORIGINAL parent at up to 8 points of the traced box (or the traced \
-         point) under all four evaluator kinds (point, float slice, gradient slice value) bit-for-bit (NaN=NaN); the child's interval evaluator on the \
+         point) (sample points biased to corners and faces; box bounds may coincide bit for bit with program constants) under the point, float-slice and gradient-slice evaluators (value and dx, dy, dz with a fixed seed gradient per input) bit-for-bit (NaN=NaN); the child's interval evaluator on the \
          traced box must still enclose the parent's point values. Also: simplify never rejects/panics on a trace just returned; child keeps output count and \
          variable numbering. Non-trivial = the trace has at least one Left/Right and at least one Both entry and the child \
          is strictly shorter than the parent."
@@ -943,7 +943,7 @@ impl Prop for P {
 
     fn assumptions() -> Vec<&'static str> {
         vec![
-            "a parent/child mismatch downstream of a min/max tie between zeros of opposite sign is attributed to known finding F7, anything else is a violation",
+            "a parent/child mismatch downstream of a min/max tie between zeros of opposite sign is attributed to known finding F7; F11 / F6 are attributed in the first step of a chain only with an interval-side witness on the traced box (NaN-from-infinity node with a non-NaN interval; hashed operand whose interval is the other zero); anything else is a violation",
             "x86_64 JIT only",
         ]
     }
